@@ -49,8 +49,14 @@ Section ABF.
     c_szd : bool;                     (* stepZeroData (f_cvb_step_zero_data) *)
     c_same_step : bool;               (* proxy->total_forces_same_step(), hence f_cv_total_force_current_step *)
     c_subtract : list bool;           (* subtractAppliedForce of each variable *)
-    c_hidej : bool                    (* hideJacobian of the ABF bias (f_cv_hide_Jacobian on each of its variables) *)
+    c_hidej : bool;                   (* hideJacobian of the ABF bias (f_cv_hide_Jacobian on each of its variables) *)
+    c_other : list bool               (* another bias that applies forces is attached to the variable *)
   }.
+
+  (* f_cv_apply_force of variable k: enabled (through require_feature_children(f_cvb_apply_force, ...)) when
+     a bias that applies forces uses the variable.  colvarmodule::update_colvar_forces calls
+     communicate_forces() only for such variables: otherwise colvar::f never reaches the atoms *)
+  Definition cvapply (c : abf_cfg) (k : nat) : bool := c_apply c || bget (c_other c) k.
 
   Record abf_state := mkSt {
     s_cnt : idx -> Z;                 (* samples   (colvar_grid_count) *)
@@ -68,7 +74,7 @@ Section ABF.
   Record abf_in := mkIn {
     i_x : vec;                        (* variable values at this step *)
     i_e : vec;                        (* engine's own force on each variable at this configuration *)
-    i_o : vec;                        (* force applied to each variable by the other biases at this step *)
+    i_o : vec;                        (* force applied to each variable by the other biases at this step (read only when c_other) *)
     i_j : vec;                        (* Jacobian force fj of each variable at this configuration *)
     i_boundary : bool                 (* this step repeats the previous one (new run statement) *)
   }.
@@ -199,16 +205,17 @@ Section ABF.
     else vzero (c_nd c).
   (* colvar::update_forces_energy: f = fb = sum of the biases' forces, minus fj with hideJacobian;
      end_of_step: f_old = f *)
+  Definition oeff (c : abf_cfg) (i : abf_in) (k : nat) : T := if bget (c_other c) k then vget (i_o i) k else n0 O.
   Definition st_f (c : abf_cfg) (s : abf_state) (i : abf_in) : vec :=
     vbuild (c_nd c) (fun k =>
-      let fb := nadd O (vget (st_fabf c s i) k) (vget (i_o i) k) in
+      let fb := nadd O (vget (st_fabf c s i) k) (oeff c i k) in
       if c_hidej c then nsub O fb (vget (i_j i) k) else fb).
   Definition st_fold (c : abf_cfg) (s : abf_state) (i : abf_in) : vec :=
     vbuild (c_nd c) (fun k => if bget (c_subtract c) k then vget (st_f c s i) k else vget (s_fold s) k).
-  (* colvar::communicate_forces hands f (times integer_power(value, 0) = 1) to the component.
-     engine: prev_total = eforce + force received from Colvars *)
+  (* colvar::communicate_forces hands f (times integer_power(value, 0) = 1) to the component, for the
+     variables that have f_cv_apply_force.  engine: prev_total = eforce + force received from Colvars *)
   Definition st_eng (c : abf_cfg) (s : abf_state) (i : abf_in) : vec :=
-    vbuild (c_nd c) (fun k => nadd O (vget (i_e i) k) (vget (st_f c s i) k)).
+    vbuild (c_nd c) (fun k => if cvapply c k then nadd O (vget (i_e i) k) (vget (st_f c s i) k) else vget (i_e i) k).
   (* colvar::collect_cvc_Jacobians *)
   Definition st_fj (c : abf_cfg) (i : abf_in) : vec := vbuild (c_nd c) (fun k => vget (i_j i) k).
 
@@ -239,12 +246,14 @@ Section ABF.
   (* force exerted by the atoms on variable k at a step, as the engine measures it *)
   Definition measured (c : abf_cfg) (io : abf_in * abf_out) (k : nat) : T :=
     if c_same_step c then vget (i_e (fst io)) k      (* measured before Colvars adds its forces *)
-    else nadd O (vget (i_e (fst io)) k) (vget (o_f (snd io)) k).  (* engine force + every Colvars force of that step *)
+    else if cvapply c k then nadd O (vget (i_e (fst io)) k) (vget (o_f (snd io)) k)  (* engine force + every Colvars force of that step *)
+    else vget (i_e (fst io)) k.                      (* the variable hands no force to the atoms *)
   (* the part of it that Colvars itself was applying at that step and that the sample excludes:
      the ABF force (and, with hideJacobian, the compensating force -fj that the ABF bias asks the variable
      to apply); with subtractAppliedForce every force applied by Colvars to the variable *)
   Definition own (c : abf_cfg) (io : abf_in * abf_out) (k : nat) : T :=
     if c_same_step c then n0 O
+    else if negb (cvapply c k) then n0 O
     else if bget (c_subtract c) k then vget (o_f (snd io)) k
     else if c_hidej c then nsub O (vget (o_fabf (snd io)) k) (vget (i_j (fst io)) k)
     else vget (o_fabf (snd io)) k.
